@@ -873,6 +873,7 @@ def run(ctx: Ctx) -> None:
 
     # ---- history: the family a flow is checked against is the one of the last static route ---------
     history_cases(ctx, sw)
+    independence_cases(ctx, sw)
 
     # ---- file: the line the error names ------------------------------------------------------------
     file_line_case(ctx, sw)
@@ -1068,6 +1069,73 @@ def history_cases(ctx: Ctx, sw: Sweep) -> None:
             ctx.nontrivial({'history': text})
 
 
+FLOW_ACTIONS = ['discard', 'rate-limit 9600', 'redirect 65000:12', 'redirect-to-nexthop', 'copy 10.0.0.9', 'mark 17', 'action sample', 'action terminal', 'action sample-terminal',
+                'community [ 65000:1 ]', 'large-community [ 65000:1:2 ]', 'extended-community [ target:65000:7 ]', 'extended-community [ origin:65000:8 ]']
+ROUTE_ATTRS = ['community [ 65000:1 65000:2 ]', 'extended-community [ target:65000:7 ]', 'extended-community [ origin:1.2.3.4:8 ]', 'large-community [ 65000:1:2 ]', 'med 7',
+               'local-preference 70', 'as-path [ 65001 65002 ]', 'aggregator ( 65001:10.9.9.9 )', 'originator-id 10.1.1.1', 'cluster-list [ 10.2.2.2 ]', 'atomic-aggregate', 'origin egp']
+
+
+def independence_cases(ctx: Ctx, sw: Sweep) -> None:
+    """What an accepted definition sends is a function of its own text: it does not depend on which other
+    definitions were accepted before it in the same process.  Every single action / attribute alone, then every
+    ordered pair, each parsed by the real API parser and encoded; then all of them again, the other way round —
+    the bytes of a definition must be the same both times."""
+    rig = sw.rig
+    sh = rig.shapes[0]
+    defs: list[tuple[str, str]] = []
+    for a in FLOW_ACTIONS:
+        defs.append(('flow', f'flow route {{ match {{ destination 10.1.0.0/24; }} then {{ {a}; }} }}'))
+    for a in ROUTE_ATTRS:
+        defs.append(('route', f'route 10.2.0.0/24 next-hop 1.2.3.4 {a}'))
+    for i, a in enumerate(FLOW_ACTIONS):
+        for b in FLOW_ACTIONS:
+            if a != b:
+                defs.append(('flow', f'flow route {{ match {{ destination 10.1.{i + 1}.0/24; }} then {{ {a}; {b}; }} }}'))
+    for i, a in enumerate(ROUTE_ATTRS):
+        for b in ROUTE_ATTRS:
+            if a.split(' ')[0] != b.split(' ')[0]:
+                defs.append(('route', f'route 10.2.{i + 1}.0/24 next-hop 1.2.3.4 {a} {b}'))
+
+    def sent(kind: str, text: str) -> str:
+        o = rig.api_call(kind, text)
+        if o.status != 'ok':
+            return o.short()
+        try:
+            return b''.join(rig.encode(sh, o.routes)).hex()
+        except Exception as e:  # noqa: BLE001
+            return 'encode-raises:' + fr._exc(e).split(':')[0]
+
+    first = {}
+    for kind, text in defs:
+        if ctx.time_left() < 12:
+            ctx.notes.append('independence stream cut by the budget')
+            return
+        first[text] = sent(kind, text)
+        ctx.evaluations += 1
+        ctx.count('independence:first-pass')
+    differ = []
+    for kind, text in reversed(defs):
+        if ctx.time_left() < 8:
+            break
+        again = sent(kind, text)
+        ctx.count('independence:second-pass')
+        if again != first[text]:
+            differ.append((kind, text, first[text], again))
+        elif again not in ('refused',) and not again.startswith(('raised', 'encode-raises')):
+            ctx.nontrivial({'independence': text})
+    if differ:
+        kind, text, a, b = min(differ, key=lambda d: len(d[1]))
+        word = text.split('{')[-2].split(';')[0].strip().split(' ')[0] if kind == 'flow' else text.split(' ')[5]
+        canon = {'field': 'structure:' + word, 'class': 'history', 'session': 'all', 'fault': 'depends-on-earlier-definitions'}
+        key = json.dumps(canon, sort_keys=True)
+        ctx.count('oracle-fail:depends-on-earlier-definitions')
+        if key not in sw.seen_fail:
+            f = Failure('text-field', canon, {'kind': kind, 'text': text, 'stream': 'independence', 'n_differ': len(differ)},
+                        f'"{text}" is sent as {a[:120]} when parsed before the other definitions and as {b[:120]} after them ({len(differ)} definition(s) differ)')
+            sw.seen_fail[key] = f
+            ctx.failures.append(f)
+
+
 def file_line_case(ctx: Ctx, sw: Sweep) -> None:
     """The refusal of a definition in a file names the line of the file the definition is on."""
     import os
@@ -1142,6 +1210,8 @@ def replay(path: str) -> int:
         return 0 if verdict in ('ok', 'refused') else 1
     if stream == 'history':
         history_cases(ctx, sw)
+    elif stream == 'independence':
+        independence_cases(ctx, sw)
     elif stream == 'file-line':
         file_line_case(ctx, sw)
         print('file_line:', ctx.extra.get('file_line'))
